@@ -171,6 +171,19 @@ def oracle_c04(case, li):
                     if dot < 0:
                         return f"{inp}: refused with BadGeometry although the two edges point in opposite directions (dot = {dot})"
                 continue
+            if sew and dim == 2:
+                # the converse: an ACCEPTED 2-sew of two fully embedded edges must point in opposite directions (exact sign)
+                from fractions import Fraction as F
+                r_ = int(t[3])
+                b1l_, b1r_ = s0["b"][1][l], s0["b"][1][r_]
+                if b1l_ != 0 and b1r_ != 0:
+                    vc_ = vertex_cells(*s0["b"], n)
+                    pts_ = [s0["a"][0][min(next(c for c in vc_ if d in c))] for d in (l, b1r_, b1l_, r_)]
+                    if all(p != "none" for p in pts_):
+                        P_ = [[F(x) for x in p.strip("()").split(",")] for p in pts_]
+                        dot_ = sum((P_[2][k] - P_[0][k]) * (P_[1][k] - P_[3][k]) for k in range(2))
+                        if dot_ >= 0:
+                            return f"{inp}: accepted although the two fully embedded edges do not point in opposite directions (dot = {dot_})"
             # expected topology
             if sew:
                 r = int(t[3])
@@ -304,9 +317,35 @@ def tx_blocks(count, rng, mask=0b10111):
     return cases
 
 
+def perp_cases(count, rng):
+    """2-sews of two embedded edges that are EXACTLY perpendicular, with non-dyadic coordinates (exact rational values of f64
+    numbers such as 0.1, 0.37, …): u = (a, b), w = ±(-b, a), both edges starting at the origin, so the differences are exact and
+    the products a·b are not representable.  The dot product is exactly 0 — in exact arithmetic and in the unfused IEEE evaluation
+    a·(−b) + b·a alike — so the sew must be refused with BadGeometry (not `pointing in opposite directions`)."""
+    from fractions import Fraction as F
+    cases = []
+    b0 = [0, 0, 1, 0, 3]
+    b1 = [0, 2, 0, 4, 0]
+    for c in range(count):
+        a = float(rng.randint(1, 999)) / rng.choice([10.0, 100.0, 1000.0, 7.0, 3.0])
+        b = float(rng.randint(1, 999)) / rng.choice([10.0, 100.0, 1000.0, 7.0, 3.0])
+        if rng.random() < 0.5:
+            a = -a
+        sgn = rng.choice([1, -1])
+        ux, uy = F(a), F(b)
+        wx, wy = -sgn * uy, sgn * ux
+        mask = rng.choice([0, 0b10111])
+        lines = [gens.load_line(2, 4, mask, [b0, b1, [0] * 5], [0] * 5), "wv 1 0 0", f"wv 2 {ux} {uy}", "wv 3 0 0", f"wv 4 {wx} {wy}",
+                 "snap", rng.choice(["sew 2 1 3", "sew 2 3 1", "fsew 2 1 3"]), "snap"]
+        cases.append(Case(f"perp{c}", lines, oracle="c04", meta={"sig": "perpendicular-non-dyadic"}))
+    return cases
+
+
 def run(tier, seed):
     rng = random.Random(seed)
     parts = []
+    parts.append(("exactly perpendicular edges with non-dyadic coordinates must be refused",
+                  hv.campaign(perp_cases(1500 if tier == "quick" else 20000, rng), oracle_c04)))
     from props import c08
     parts.append(("sews composed in one transaction vs one by one",
                   hv.campaign(tx_blocks(3000 if tier == "quick" else 40000, rng), c08.oracle_c08k)))
